@@ -444,6 +444,8 @@ func RunWorker(t *testing.T) {
 	}
 }
 
+var raceTainted bool
+
 // execWorld executes one plan.  In the race flavour, whatever the race
 // detector reported while the plan ran is this plan's verdict (unless the
 // world already found a violation: then the run was cut short and the
@@ -454,8 +456,20 @@ func execWorld(w *World, t *testing.T, plan *Plan, trace bool) *Result {
 		return res
 	}
 	res.Count("race_detector_executions", 1)
+	if raceTainted {
+		// an earlier run of this process was abandoned mid-way (deadlock, livelock,
+		// panic): its tasks never handed their state back, so reports that pair a
+		// later access with one of theirs say nothing about rulio
+		RaceLogDiscard()
+		res.Count("race_oracle_off_after_abandoned_run", 1)
+		return res
+	}
 	if res.Viol != nil {
 		RaceLogDiscard()
+		switch res.Viol.Class {
+		case "deadlock", "livelock", "panic":
+			raceTainted = true
+		}
 		return res
 	}
 	prefix := ""
